@@ -127,3 +127,9 @@ NEUTRALS = [
     M("constructor keywords reordered", _S, "log_q=self.log_q[idx],\n            beta=beta,\n            dtype=self.dtype,", "beta=beta,\n            log_q=self.log_q[idx],\n            dtype=self.dtype,"),
     M("population size via len(self)", _S, "idx = rng.choice(len(self.x), size=n_samples,", "idx = rng.choice(len(self), size=n_samples,"),
 ]
+
+# functions the property is anchored in (auto-mutant sweep of the thorough tier)
+ANCHORS = [
+    'aspire.samples:SMCSamples.resample',
+    'aspire.samples:SMCSamples.log_weights',
+]
